@@ -1,1 +1,17 @@
 import RaftLogModel.Props.C09
+open RaftLog
+#print axioms uncrcBit_crcBit
+#print axioms crcBit_uncrcBit
+#print axioms crcBit_injective
+#print axioms crcByte_injective_left
+#print axioms crcByte_injective_right
+#print axioms crc32_single_byte
+#print axioms c09_crcBit_bijective
+#print axioms c09_crcByte_injective
+#print axioms c09_crc32_single_byte
+#print axioms c09_body_byte_detected
+#print axioms c09_mutated_shape
+#print axioms c09_body_byte_decode_rejected
+#print axioms c09_body_byte_decode_extent
+#print axioms c09_sum_bytes_detected
+#print axioms c09_crc32_check_value
